@@ -196,7 +196,9 @@ def lookalike_cases(rng):
 def cycle_documents(rng, n):
     docs = []
     link_kinds = ["properties", "items", "tuple-items", "additionalProperties", "additionalItems", "contains", "patternProperties",
-                  "propertyNames", "dependencies", "anyOf", "oneOf", "allOf", "not"]
+                  "propertyNames", "dependencies", "anyOf", "oneOf", "allOf", "not",
+                  # the reference resolver does not know literals from schemas: a reference inside one closes a cycle just as well
+                  "default", "const", "enum"]
 
     def link(kind, ref, idx):
         r = {"$ref": ref}
@@ -215,6 +217,9 @@ def cycle_documents(rng, n):
             "oneOf": {"title": t, "oneOf": [r, {"type": "null"}]},
             "allOf": {"title": t, "allOf": [r]},
             "not": {"title": t, "not": r},
+            "default": {"title": t, "type": "object", "default": {"next": r}},
+            "const": {"title": t, "const": {"k": [r]}},
+            "enum": {"title": t, "enum": [1, r]},
         }[kind]
     # self cycles through every position
     for kind in link_kinds:
